@@ -312,6 +312,35 @@ func parserProgram(r *rand.Rand, focus string) *Program {
 	return p
 }
 
+// addNestedDefs inserts 2..5 definitions at arbitrary positions, nested acyclically (chains of any depth up to the
+// number of definitions), and three uses.
+func addNestedDefs(r *rand.Rand, p *Program) {
+	var defs []string
+	k := 2 + r.Intn(4)
+	names := []string{"alpha", "beta", "gamma", "delta-1", "eps_2", "z"}
+	r.Shuffle(len(names), func(i, j int) { names[i], names[j] = names[j], names[i] })
+	for d := 0; d < k; d++ {
+		val := pick(r, []string{"[a-z]+", "x{2,3}", "(?:a|b)", "\\s*", "y", "{3}", "a{{", "}}b"})
+		if d > 0 && chance(r, 0.6) {
+			val = pick(r, []string{"", "p", "(?:"}) + "{{" + names[r.Intn(d)] + "}}" + pick(r, []string{"", "q", ")?"})
+			if strings.HasPrefix(val, "(?:") && !strings.HasSuffix(val, ")?") {
+				val += ")"
+			}
+		}
+		defs = append(defs, "##!> define "+names[d]+" "+val)
+	}
+	lines := strings.Split(p.Input, "\n")
+	for _, d := range defs {
+		at := r.Intn(len(lines) + 1)
+		lines = append(lines[:at:at], append([]string{indent(r) + d}, lines[at:]...)...)
+	}
+	for u := 0; u < 3; u++ {
+		at := r.Intn(len(lines) + 1)
+		lines = append(lines[:at:at], append([]string{"use{{" + names[r.Intn(k)] + "}}" + pick(r, []string{"", "{{undefined}}", "{{" + names[r.Intn(k)] + "}}"})}, lines[at:]...)...)
+	}
+	p.Input = strings.Join(lines, "\n")
+}
+
 func genParserCases(focus string) func(r *rand.Rand, tier string, env *Env) []Case {
 	return func(r *rand.Rand, tier string, env *Env) []Case {
 		n := 250
@@ -322,31 +351,7 @@ func genParserCases(focus string) func(r *rand.Rand, tier string, env *Env) []Ca
 		for i := 0; i < n; i++ {
 			p := parserProgram(r, focus)
 			if focus == "defs" {
-				// more definitions, in arbitrary positions, nested acyclically
-				var defs []string
-				k := 2 + r.Intn(4)
-				names := []string{"alpha", "beta", "gamma", "delta-1", "eps_2", "z"}
-				r.Shuffle(len(names), func(i, j int) { names[i], names[j] = names[j], names[i] })
-				for d := 0; d < k; d++ {
-					val := pick(r, []string{"[a-z]+", "x{2,3}", "(?:a|b)", "\\s*", "y", "{3}", "a{{", "}}b"})
-					if d > 0 && chance(r, 0.6) {
-						val = pick(r, []string{"", "p", "(?:"}) + "{{" + names[r.Intn(d)] + "}}" + pick(r, []string{"", "q", ")?"})
-						if strings.HasPrefix(val, "(?:") && !strings.HasSuffix(val, ")?") {
-							val += ")"
-						}
-					}
-					defs = append(defs, "##!> define "+names[d]+" "+val)
-				}
-				lines := strings.Split(p.Input, "\n")
-				for _, d := range defs {
-					at := r.Intn(len(lines) + 1)
-					lines = append(lines[:at:at], append([]string{indent(r) + d}, lines[at:]...)...)
-				}
-				for u := 0; u < 3; u++ {
-					at := r.Intn(len(lines) + 1)
-					lines = append(lines[:at:at], append([]string{"use{{" + names[r.Intn(k)] + "}}" + pick(r, []string{"", "{{undefined}}", "{{" + names[r.Intn(k)] + "}}"})}, lines[at:]...)...)
-				}
-				p.Input = strings.Join(lines, "\n")
+				addNestedDefs(r, p)
 			}
 			gargs := p.genOp().Args
 			c := Case{Kind: "program", Ops: []Op{p.parseOp(), p.genOp()}, Oracles: []Op{{"parser.inline", gargs}}}
@@ -377,13 +382,51 @@ func genParserCases(focus string) func(r *rand.Rand, tier string, env *Env) []Ca
 	}
 }
 
+// escalateParser: a component-level disagreement becomes whole programs with the by-hand oracle.
+func escalateParser(d Disagreement) []Case {
+	empty := [][]byte{{}, {}, {}, {}, {}, {}}
+	mk := func(kind, input string, files ...[]byte) Case {
+		args := append(append([][]byte{}, empty...), []byte(input))
+		args = append(args, files...)
+		c := Case{Kind: "escalated-" + kind, Ops: []Op{{"gen.run", args}}, Oracles: []Op{{"parser.inline", args}}}
+		if kind == "expand" {
+			c.Oracles = append(c.Oracles, Op{"parser.defperm", append([][]byte{bytes.Repeat([]byte{'x'}, 6)}, args...)})
+		}
+		return c
+	}
+	switch d.Op.Name {
+	case "parse.replaceSuffixes":
+		if len(d.Op.Args) != 2 {
+			return nil
+		}
+		content, pairs := d.Op.Args[0], strings.Join(strings.Fields(string(d.Op.Args[1])), " ")
+		if len(strings.Fields(pairs))%2 != 0 || len(strings.Fields(pairs)) == 0 {
+			return nil // an odd list is rejected (C16), not rewritten
+		}
+		return []Case{
+			mk("replaceSuffixes", "##!> include escf -- "+pairs+"\n", []byte("i"), []byte("escf.ra"), content),
+			mk("replaceSuffixes", "##!> include-except escf escx -- "+pairs+"\n", []byte("i"), []byte("escf.ra"), content, []byte("e"), []byte("escx.ra"), []byte("nothing-in-common\n")),
+		}
+	case "parse.expand":
+		if len(d.Op.Args) < 3 {
+			return nil
+		}
+		var lines []string
+		for i := 1; i+1 < len(d.Op.Args); i += 2 {
+			lines = append(lines, "##!> define "+string(d.Op.Args[i])+" "+string(d.Op.Args[i+1]))
+		}
+		return []Case{mk("expand", strings.Join(lines, "\n")+"\n"+string(d.Op.Args[0]))}
+	}
+	return nil
+}
+
 func init() {
 	oracles["parser.inline"] = oracleInline
 	oracles["parser.defperm"] = oracleDefPermutations
 	rule := "programs from the tree grammar with include files (plain lists, lists with comments/blank lines/indentation, files with prefixes and/or suffixes, own definitions, nested includes, include vs exclude directory, with/without .ra), include-except with 1-2 exclusion files, suffix replacement lists incl. chained pairs, definitions; " +
 		"compared with the same program inlined/expanded by an independent naive reading in the harness; non-trivial = at least one include or definition; distinct by bytes"
-	properties["C05"] = &Property{ID: "C05", LeanMods: []string{"CrsProps.C05"}, Corr: "K2 (parser.Parse buffer/flags/prefixes/suffixes/variables), K5", Rule: rule, Gen: genParserCases("include")}
-	properties["C06"] = &Property{ID: "C06", LeanMods: []string{"CrsProps.C06"}, Corr: "K2 (parser.Parse; replaceSuffixes/buildPairMap alone), K5", Rule: rule, Gen: genParserCases("except")}
-	properties["C07"] = &Property{ID: "C07", LeanMods: []string{"CrsProps.C07"}, Corr: "K2 (parser.Parse; expandDefinitions alone, Go's own random map order varies across calls), K5", Rule: rule + "; definition lines permuted (all permutations up to 4 definitions, sampled beyond)", Gen: genParserCases("defs"),
+	properties["C05"] = &Property{ID: "C05", LeanMods: []string{"CrsProps.C05"}, Corr: "K2 (parser.Parse buffer/flags/prefixes/suffixes/variables), K5", Rule: rule, Gen: genParserCases("include"), Escalate: escalateParser}
+	properties["C06"] = &Property{ID: "C06", LeanMods: []string{"CrsProps.C06"}, Corr: "K2 (parser.Parse; replaceSuffixes/buildPairMap alone), K5", Rule: rule, Gen: genParserCases("except"), Escalate: escalateParser}
+	properties["C07"] = &Property{ID: "C07", LeanMods: []string{"CrsProps.C07"}, Corr: "K2 (parser.Parse; expandDefinitions alone, Go's own random map order varies across calls), K5", Rule: rule + "; definition lines permuted (all permutations up to 4 definitions, sampled beyond)", Gen: genParserCases("defs"), Escalate: escalateParser,
 		Assume: []string{"no computed names: no reference comes into existence only through a substitution (generator produces values whose chunks do not end in a proper prefix of a reference)"}}
 }
